@@ -520,6 +520,10 @@ func c14(c *Check) {
 		audited := strings.HasPrefix(funcName(f), "eth/types.") && (strings.Contains(funcName(f), "lru") || strings.Contains(funcName(f), "Ethash") || strings.Contains(funcName(f), "remoteSealer") || strings.Contains(funcName(f), "cache") || strings.Contains(funcName(f), "dataset"))
 		c.Req(audited, "C14/no-node-local-state", funcName(f), f.Pos(), "audited: per-instance ethash structure of a throw-away verifier", "node-local state written during block processing: "+strings.Join(ws, "; "))
 	}
+	c.Rule("C14/keepers-hold-no-state", "every Keeper struct of the repository consists of wiring only (interfaces, parameter subspace, other keepers, basic values): no pointer, map, slice, channel, function or foreign struct field that could carry values from one block (or query) to the next in process memory", 20)
+	keeperFieldsRule(c, "C14/keepers-hold-no-state", nil)
+	c.Rule("C14/audited-node-configuration", "the application constructor reads node-local configuration (app.toml, flags) only under audited keys, none of which reaches block processing", 2)
+	appOptionsRule(c, "C14/audited-node-configuration")
 	c.Extra["reachable_functions"] = len(fns)
 	c.Extra["sites_examined"] = nsites
 	c.Rule("C14/audit-table-live", "every audited entry still matches a reachable site", 15)
